@@ -12,7 +12,7 @@ from .. import core
 from ..ebb3drv import (call, connect_env, decoy_problem, is_failure_value, make_decoy,
                        new_object, operations, SerialException)
 from ..explore import Chooser, Stats, explore
-from ..fakeserial import EBB3Board, FakePort, Profile, QUIET
+from ..fakeserial import PYSERIAL_READ_FAULTS, PYSERIAL_WRITE_FAULTS, EBB3Board, FakePort, Profile, QUIET
 
 PROPERTY = "C04"
 
@@ -21,7 +21,8 @@ EXC_KINDS = ("SerialException", "SerialTimeoutException", "PortNotOpenError", "O
         "InterruptedError", "BrokenPipeError")
 # (what pyserial back ends raise, plus RuntimeError, which the library's own except clauses
 # name among the serial I/O exceptions)
-FAULTS = Profile(write_exc=EXC_KINDS, read_exc=EXC_KINDS,
+# ... and each fault pyserial's own read()/write() can raise, with the class and text pyserial uses
+FAULTS = Profile(write_exc=EXC_KINDS + PYSERIAL_WRITE_FAULTS, read_exc=EXC_KINDS + PYSERIAL_READ_FAULTS,
                  latency=(0, 1, 26), content=("err", "nameerr", "wrong", "sibling", "cut", "longerr", "jsonish", "lonebrace",
                           "banner"), prefix=("banner", "other"),
                  silent=True,
